@@ -33,10 +33,10 @@ CLAIMS = {
 }
 GOALS = {'quick': ['a chain of 3', 'two steps in one layer', 'nested', 'split',
                    'a flow step also makes a structural update',
-                   'deriver created at run time'],
+                   'deriver created at run time', 'legacy derivers only'],
          'thorough': ['a chain of 3', 'two steps in one layer', 'nested',
                       'split', 'a flow step also makes a structural update',
-                      'deriver created at run time']}
+                      'deriver created at run time', 'legacy derivers only']}
 STUBS = ['flow steps computing v_j from what they read (set updater that logs '
          'applications); one of them (symbolic choice, or none) adds a child '
          'to a glob store in the same update, every phase', 'two legacy derivers (one listed under processes, one '
@@ -155,12 +155,68 @@ def jobs(tier):
                                 budget_s=100 if tier == 'quick' else 900,
                                 crosscheck=20 if tier == 'thorough' else 0))
     out.append(dict(name='rejects', part='rejects', budget_s=60))
+    out.append(dict(name='legacy-only', part='legacy', budget_s=60))
     return out
+
+
+def legacy_only(ctx, cfg):
+    """Every step is a legacy deriver listed under `processes` (no steps=, no
+    flow=): a step phase at construction and after every batch all the same."""
+    ts = ctx.int('ts', 1, 3)
+    d = ctx.int('d', -3, 3)
+    nested = ctx.flag('nested')
+    LOG.clear()
+    CTX['applies'] = 0
+    CTX['added'] = 0
+    base = ('agents', 'a') if nested else ()
+    up = ('..',) * len(base)
+    procs = {'p': Proc({'name': 'p', 'ts': ts, 'd': d}),
+             'der_a': FS({'name': 'der_a', 'deps': [], 'c': 7}),
+             'der_b': FS({'name': 'der_b', 'deps': ['der_a'], 'c': 0})}
+    topo = {n: {'s': up + ('s',), 'o': up + ('o',)} for n in procs}
+    topo['p'] = {'s': up + ('s',)}
+    for seg in reversed(base):
+        procs, topo = {seg: procs}, {seg: topo}
+
+    def hook(data):
+        LOG.append(('emit', data['table']))
+    sink = stubs.reset_sink(hook)
+    e = Engine(processes=procs, topology=topo, emitter={'type': 'vsym_rec'},
+               display_info=False)
+    e.update(ctx.int('iv', 1, 3))
+    log = list(LOG)
+    ctx.goal('legacy derivers only')
+    vals = []
+    for row in sink['rows']:
+        x = row['s']['x']
+        vals.append(EQ(row['o']['v_der_a'], 1 + 7 * x))
+        vals.append(EQ(row['o']['v_der_b'], 1 + (1 + 7 * x)))
+        ctx.observe('x', x)
+    info = lambda: dict(log=log, rows=sink['rows'])
+    ctx.claim('C05.values', AND(vals), sig='values-legacy-only', info=info)
+    # one phase (der_a, apply, der_b, apply) before every history row
+    shape = []
+    i = 0
+    n_rows = 0
+    while i < len(log):
+        if log[i] == ('emit', 'history'):
+            n_rows += 1
+            shape.append([en[:2] for en in log[max(0, i - 5):i]
+                          if en[0] in ('step', 'apply')][-4:] == [
+                ('step', 'der_a'), ('apply', 'der_a'),
+                ('step', 'der_b'), ('apply', 'der_b')])
+        i += 1
+    n_steps = len([en for en in log if en[0] == 'step'])
+    ctx.claim('C05.once', all(shape) and n_steps == 2 * n_rows and all(
+        en[2] == 0 for en in log if en[0] == 'step'),
+        sig='once-legacy-only', info=info)
 
 
 def body(ctx, cfg):
     if cfg['part'] == 'rejects':
         return rejects(ctx, cfg)
+    if cfg['part'] == 'legacy':
+        return legacy_only(ctx, cfg)
     S = cfg['S']
     names = ['s%d' % i for i in range(S)]
     deps = {n: [] for n in names}
